@@ -1,7 +1,7 @@
 (* C08: corollaries of the round-trip theorem, examples and the refutation of the unrestricted statement. *)
 From Coq Require Import List Ascii String Bool Arith Lia Permutation PrimFloat.
 From Verif Require Import Base.Result Base.Str Base.Sexp Base.PyDict Base.Float
-  Model.Tokenizer Model.Types Model.NumExpr Model.Domain Model.DomainExporter
+  Model.Tokenizer Model.Types Model.NumExpr Model.Domain Model.Exec Model.DomainExporter Spec.Pddl
   Proofs.C08_Defs Proofs.C08_Trees Proofs.C08_Pre Proofs.C08_Eff Proofs.C08_Tables Proofs.C08_Domain.
 Import ListNotations.
 Open Scope string_scope.
@@ -60,3 +60,35 @@ Proof. vm_compute. repeat split. Qed.
    everything else is unchanged *)
 Lemma ex_roundtrip : parse_domain ex_num (export_domain 2 4 ex_m) = Ok (rr_domain ex_num 2 4 ex_m).
 Proof. apply domain_roundtrip. exact ex_wf. Qed.
+
+(* ---------- the unrestricted statement is false: finding D83 ---------- *)
+Definition d83_text : string :=
+  "(define (domain dom) (:requirements :typing :universal-preconditions) (:types a - object)
+   (:predicates (p ?x - a))
+   (:action a1 :parameters (?x - a) :precondition (and (forall (?q - a) (or))) :effect (and (p ?x)))
+   (:action a2 :parameters (?x - a) :precondition (and (or (p ?x) (forall (?q - a) (and)))) :effect (and (p ?x))))".
+
+Definition no_num : numparser := fun _ => None.
+
+Definition d83_domain : result mdomain := do e <- parse_string MStr d83_text; parse_domain no_num e.
+Definition d83_m : mdomain := match d83_domain with Ok m => m | Err _ => empty_domain end.
+Definition d83_m' : mdomain :=
+  match parse_domain no_num (export_domain 2 4 d83_m) with Ok m => m | Err _ => empty_domain end.
+
+Definition applicable_in (m : mdomain) (name : string) (args : list string) (objs : Spec.Pddl.objects)
+           (s : Spec.Pddl.state) : result bool :=
+  match dget (d_actions m) name with
+  | None => Err EKey
+  | Some a => do ga <- Exec.ground_action m a args; Exec.is_applicable m 0x1.a36e2eb1c432dp-14%float (Some objs) ga s
+  end.
+
+Definition empty_state : Spec.Pddl.state := {| Spec.Pddl.facts := []; Spec.Pddl.fluents := [] |}.
+
+Lemma d83_refutes :
+  d83_domain = Ok d83_m /\
+  parse_domain no_num (export_domain 2 4 d83_m) = Ok d83_m' /\
+  applicable_in d83_m "a1" ["o1"] [("o1", "a")] empty_state = Ok false /\
+  applicable_in d83_m' "a1" ["o1"] [("o1", "a")] empty_state = Ok true /\
+  applicable_in d83_m "a2" ["o1"] [("o1", "a")] empty_state = Ok true /\
+  applicable_in d83_m' "a2" ["o1"] [("o1", "a")] empty_state = Ok false.
+Proof. vm_compute. repeat split. Qed.
